@@ -1,6 +1,6 @@
 from __future__ import annotations
 
-from math import prod
+from math import inf, prod
 from typing import cast
 
 from xdsl.dialects.arith import ConstantOp, DivUIOp, MuliOp
@@ -206,10 +206,12 @@ class TiledStridedLayoutAttr(MemRefLayoutAttr, Data[TiledStridedLayout]):
         for dim, depth, stride in self.data:
             # strides with a bound of 1 can have the same step as another stride,
             # in that case the stride with the largest bound spans the most memory
-            if stride.step and (stride.step, stride.bound or 0) > (max_value, max_bound):
+            # (a dynamic bound is not known here, but it is not the stride with bound 1)
+            bound = stride.bound if stride.bound is not None else inf
+            if stride.step and (stride.step, bound) > (max_value, max_bound):
                 max_key = (dim, depth)
                 max_value = stride.step
-                max_bound = stride.bound or 0
+                max_bound = bound
         max_value = max_value * el_bytes
 
         # generate ops for the maximum
